@@ -341,6 +341,12 @@ let judge_apply f =
        add "C15" v
      end else add "C15" (S "no-output")
    | _ -> ());
+  (* the slice returned by the previous call no longer holds what it held: results must stay the
+     caller's (C09: a later call changed an earlier outcome; C15: that earlier output is no longer the text) *)
+  if get f "prevbroken" = "1" then begin
+    add "C09" (F "the bytes returned by the previous Apply call were overwritten by this call");
+    add "C15" (F "the bytes returned by the previous Apply call were overwritten by this call (no longer the output text)")
+  end;
   out_line id "apply" (List.rev !vs) !note
 
 (* ---------- equal ---------- *)
@@ -546,7 +552,10 @@ let judge_create ?(v4=false) f =
     let stable lit = (lit = "0" || (let l = if lit.[0] = '-' then String.sub lit 1 (String.length lit - 1) else lit in
                                    String.length l > 0 && String.length l <= 15 && l.[0] <> '0' && String.for_all (fun c -> c >= '0' && c <= '9') l)) in
     let nums = (match ta, tb with Some x, Some y -> numbers_t x (numbers_t y []) | _ -> []) in
-    let c19 = if List.for_all stable nums then c03 else S "numbers-not-float-stable" in
+    (* the harness decides stability with Go itself (stable=1: encoding/json prints every number's
+       float64 value back as spelled); older cases fall back to the integer rule *)
+    let all_stable = if has f "stable" then get f "stable" = "1" else List.for_all stable nums in
+    let c19 = if all_stable then c03 else S "numbers-not-float-stable" in
     out_line id "create4" ["C04", c04; "C19", c19] ""
   end else
   out_line id "create" ["C04", c04; "C03", c03; "C15", c15; "C16", c16; "FID", fid] ""
